@@ -4,7 +4,7 @@ import kv
 
 ID = "C01"
 MODULE = "C01"
-IMPORTS = "Bytes PathSan PathSanProofs"
+IMPORTS = "Bytes PathSan PathSanProofs PathSanPipe PathSanPipeProofs"
 PROFILES = ("dev",)
 INSIDE = ("exists names : list bytes, names <> [] /\\ Forall (fun s => proper_name s = true) names /\\ "
           "descend (fst P) names = Some (File c)")
@@ -42,6 +42,16 @@ THEOREMS = [
      "decoded_for_check p = d /\\ util_percent_decode p = d /\\ d = percent_decode p"),
     ("accepted_path_never_panics",
      "forall host public p : bytes, sanitize_path p = Ok tt -> request_fs_path host public p <> Panic"),
+    ("history_bodies_confined",
+     "forall (c : pcfg) (root cwd P : pos) (ops : list op), benign_host (pc_host c) -> wf_pos root -> wf_pos cwd -> "
+     "pc_fs c = read_path root cwd -> resolve_path root cwd (h_path (pc_host c) ++ [c_slash] ++ h_public (pc_host c)) = Some P -> "
+     "Forall (answer_ok c P) (run_history c [] ops)"),
+    ("unsafe_request_is_400_in_every_state",
+     "forall (c : pcfg) (cache : cache_t) (m t : bytes) (k : N) (p : bytes), starts_with [c_slash] t = true -> uri_path t = Some p -> "
+     "unsafe (percent_decode p) -> step_request c cache m t k = (XL [XN 400; XB errpage; XL []], cache)"),
+    ("internal_routes_need_override",
+     "forall (c : pcfg) (cache : cache_t) (m t : bytes) (k : N), benign_host (pc_host c) -> override_of (pc_default_ext c) m k = None -> "
+     "step_request (strip_internal c) cache m t k = step_request c cache m t k"),
 ]
 RULE = ("(a) direct calls of kvarn_utils::parse::sanitize_request (on an http::Request built from the target), kvarn_utils::percent_decode, "
         "kvarn_utils::make_path and the path construction of get_response against the Coq model (correspondence) and against the "
@@ -50,25 +60,49 @@ RULE = ("(a) direct calls of kvarn_utils::parse::sanitize_request (on an http::R
         "after the leading '/', thorough: <= 6, evaluated in batches of 14^3), all token strings of length <= 3 without the leading '/' "
         "(other request-target forms), a hand-written list of traversal spellings, a full-detail sample, random longer targets, random "
         "mutations, arbitrary bytes (mostly refused by http::Uri: out_of_domain); plus make_path, percent_decode on arbitrary text and "
-        "from_utf8 / from_utf8_lossy on byte strings around every UTF-8 boundary. (b) the real request pipeline "
-        "kvarn::handle_connection over a loopback TCP pair against a fixture tree with sentinel files inside and outside public/. "
-        "distinct_nontrivial counts distinct (component, input, model outcome class) triples; batch cases count once each, their targets "
-        "are reported as targets_in_batches")
+        "from_utf8 / from_utf8_lossy on byte strings around every UTF-8 boundary. (b) the real request pipeline, in process: a kvarn Host "
+        "over a fixture tree written to disk (files inside the public directory incl. sub-directories, index.html, *.html, names like "
+        "'%2e%2e' and '..\\secret.txt'; SENTINEL files named index.html / *.html / secret.txt / ... in every directory from the run "
+        "directory down to the parent of the public directory and in a sibling of it), with Extensions::new() (uri_redirect and CORS Prime "
+        "extensions) or Extensions::empty(), public_data_dir in {default, pub, www/pub}, response cache on/off, file cache on/off, four "
+        "path-bound Prepare handlers and a predicate-bound Prepare whose predicate logs that it was consulted; histories of 10-30 requests "
+        "(GET/HEAD/POST/OPTIONS, no / same-site / foreign Origin header, with or without access-control-request-method) and of steps that "
+        "copy a response-cache entry to an arbitrary key go through the public kvarn::handle_cache; per request status, content-decoded "
+        "body and the Prepare log are compared with PathSan.serve run over the same tree with the cache threaded through "
+        "(Model/PathSanPipe.v run_history, correspondence) and checked by three oracles that do not use the model: no body contains a "
+        "sentinel; status is 400 exactly when the Coq specification unsafe_b(percent_decode path) holds and then the body is the error "
+        "page and no Prepare was consulted; 403/204/'CORS request denied' never answer a request for which no CORS Prime applies. "
+        "Pipeline targets: the hand-written list under every (extensions x cache) combination and with random methods/Origin kinds, all "
+        "token strings of length <= 3 (quick) / <= 4 (thorough) with and without default extensions and of length 5 with them (thorough), traversal spellings (single, double "
+        "and triple encodings, backslashes, overlong forms) x prefixes x leaves that the default folder/extension expansion turns into "
+        "sentinel names, token strings ending in '/', '.', their single and double encodings, mixed histories with repeated targets, "
+        "poisoned-cache histories. distinct_nontrivial counts distinct (component, input, model outcome class) triples; batch cases count "
+        "once each, their targets are reported as targets_in_batches, pipeline requests as pipeline_requests")
 ASSUMPTIONS = [
-    "no symbolic links below or at the public directory and a case-sensitive POSIX file system (the tree model of theorems 1b/1c)",
+    "no symbolic links below or at the public directory and a case-sensitive POSIX file system (the tree model of theorems 1b/1c/6)",
     "Unix: Path::is_relative() is 'does not start with /' (the model and the harness run on Linux)",
     "the operator's options extension_default / folder_default are benign (their percent-decoding contains no './' and does not start "
-    "with '/'; true for the defaults 'html' and 'index.html', proved as benign_defaults) — hypothesis of theorems 1c and 3b",
-    "theorems 1c/3b speak about the built-in Prime extension 'Expand . and /' and about Prime extensions returning a /./ override; "
-    "other operator-written Prime/Prepare extensions that build their own paths are outside the property",
-    "http::Uri acceptance is modelled for origin-form targets, '*' and bare reg-names; other forms are out of domain of the correspondence",
-    "the response cache is represented by the entry found for the request key (its filling is C03/C04's subject); theorem 2b shows it is "
-    "bypassed for unsafe paths",
+    "with '/'; true for the defaults 'html' and 'index.html', proved as benign_defaults) — hypothesis of theorems 1c, 3b, 6 and 8",
+    "theorems 1c/3b/6/8 speak about the built-in Prime extensions ('Expand . and /', the two CORS reroutes of Extensions::new) and about "
+    "Prime extensions returning a /./ override; other operator-written Prime/Prepare/Present extensions that build their own paths "
+    "are outside the property (the fixture's Prepare handlers return fixed bodies)",
+    "http::Uri acceptance is modelled for origin-form targets, '*' and bare reg-names; other forms are out of domain of the correspondence; "
+    "the pipeline component takes origin-form targets only and builds the request as c00pipe does (absolute URI http://localhost<target>)",
+    "the response cache is a finite map with read-your-writes (moka; 1024 entries are never reached in a history); its key/fill rules are "
+    "modelled as far as C01 needs them (path only: the fixture never uses ServerCachePreference::QueryMatters; no If-Modified-Since, no "
+    "Vary rules — C03/C04's subject); theorems 2b/7 show it is bypassed for unsafe paths whatever it contains",
+    "error::default reads <host.path>/errors/<status>.html by design; the fixture has no such files",
+    "sequential histories (one request at a time)",
 ]
 TRUSTED = ["modelled: utils/src/parse.rs sanitize_request (path part), parse::uri; utils/src/lib.rs percent_decode, make_path; src/lib.rs "
-           "handle_cache / get_response / handle_request as far as sanitize result, path construction, Prepare lookup and read_file are "
-           "concerned; src/extensions.rs resolve_prime (uri_redirect), resolve_prepare; percent_encoding::percent_decode, "
-           "core::str::from_utf8 and String::from_utf8_lossy are transcribed and compared with the real functions on every run"]
+           "handle_cache / get_response / handle_request / maybe_cache as far as sanitize result, cache key and filling, path "
+           "construction, Prepare lookup and read_file are concerned; src/extensions.rs resolve_prime (uri_redirect), resolve_prepare; "
+           "src/cors.rs with_disallow_cors (when the two Prime extensions reroute, what the two internal handlers answer); "
+           "src/host.rs default_status_code_cache_filter; percent_encoding::percent_decode, core::str::from_utf8 and "
+           "String::from_utf8_lossy are transcribed and compared with the real functions on every run",
+           "the pipeline harness harness/src/c01pipe.rs + c00pipe.rs (fixture on disk under .run/<pid>-<n>/, request construction, "
+           "canonicalisation of kvarn's HTML error pages to 'ERRPAGE', content-decoding of bodies) and the Python oracles in "
+           "driver/props/c01.py (sentinel search, status-400 rule against the Coq spec component pathsanpipe.spec, CORS rule)"]
 EXHAUSTIVE = False
 KERNEL_SAMPLE = 40
 
@@ -338,14 +372,14 @@ def pipe_cases(rng, tier):
         for ch in chunks(rows, 30):
             cases.append(pipe_case(rand_cfgkey(rng), ch, "pipe-directed-methods"))
     # 3. bounded-exhaustive token strings through the pipeline
-    full = 3 if tier == "quick" else 4
+    full = 3 if tier == "quick" else 5
     for L in range(0, full + 1):
         allt = [b"/" + b"".join(c) for c in itertools.product(TOKENS, repeat=L)]
-        for de in ((True, False) if L <= 2 or tier == "thorough" else (True,)):
+        for de in ((True, False) if L <= 4 else (True,)):
             for ch in chunks(allt, 28):
                 cases.append(pipe_case((de, True, True, b"public"), [(b"GET", t, 0) for t in ch], "pipe-exhaustive"))
     # 4. traversal spellings (single / double encodings, backslashes, overlong forms) x prefixes x leaves
-    n = 40 if tier == "quick" else 600
+    n = 120 if tier == "quick" else 1500
     for _ in range(n):
         cases.append(pipe_case(rand_cfgkey(rng), [(b"GET" if rng.random() < 0.8 else rng.choice(METHODS), climb_target(rng), 0)
                                                  for _ in range(25)], "pipe-climb"))
@@ -500,16 +534,23 @@ def signature(c, m):
 
 
 LEVEL_TEXT = ("Machine-checked Coq theorems, for ALL byte strings, over a byte-level model of percent_decode / sanitize_request / make_path / "
-              "the pipeline short-circuit: an accepted path walks only downwards from the public directory until its last segment and a "
-              "returned file content always comes from inside the public directory of an arbitrary file tree (POSIX resolution without "
-              "symlinks); exactly the paths whose percent-decoded bytes contain './', are not rooted or start with '//' are rejected, "
+              "the pipeline from handle_cache to read_file: an accepted path walks only downwards from the public directory until its last "
+              "segment and a returned file content always comes from inside the public directory of an arbitrary file tree (POSIX resolution "
+              "without symlinks); exactly the paths whose percent-decoded bytes contain './', are not rooted or start with '//' are rejected, "
               "answered 400 without cache, Prepare or file read; no accepted path (raw or decoded) contains './', so the internal /./ routes "
-              "are reachable only through a Prime result; check and use decode once and identically. The model is tied to /repo on every "
-              "run by a differential run of the real functions and of the real request pipeline against the extracted model.")
+              "are reachable only through a Prime result; check and use decode once and identically. Lifted to ALL histories of requests "
+              "with the response cache threaded through (induction with a cache invariant): every body ever answered, computed or cached, "
+              "is generated, a handler's, or a public file's content; an unsafe request is answered 400 in every cache state and leaves the "
+              "cache alone; without a CORS override a request is answered as if the internal routes did not exist. The model is tied to "
+              "/repo on every run by a differential run of the real functions AND of the real kvarn::handle_cache (default and empty "
+              "extensions, cache on/off, fixture tree with sentinel files on disk) against the extracted model, plus three oracles on the "
+              "real answers that do not go through the model.")
 LEVEL_NOTE = ("Trusted: Coq kernel, extraction (ExtrOcamlBasic) reduced by an in-kernel recheck sample, the hand transcription of the Rust "
-              "code into Model/PathSan.v as validated by the differential run, the POSIX path-resolution model (no symlinks). No axioms. "
-              "One defect repaired on the way (sanitize tested the undecoded text when the decoding was not UTF-8).")
-TECHNIQUE = "Coq proof (model satisfies spec for all inputs) + differential correspondence model vs. implementation (direct calls and loopback pipeline)"
+              "code into Model/PathSan.v + Model/PathSanPipe.v as validated by the differential runs, the POSIX path-resolution model (no "
+              "symlinks), the pipeline harness. No axioms. One defect repaired on the way (sanitize tested the undecoded text when the "
+              "decoding was not UTF-8).")
+TECHNIQUE = ("Coq proof (model satisfies spec for all inputs and all histories) + differential correspondence model vs. implementation "
+             "(direct calls and the in-process pipeline kvarn::handle_cache on a fixture tree) + model-independent oracles on the pipeline answers")
 
 
 def extra_coverage(cases, impl, model, spec):
